@@ -300,6 +300,9 @@ func (s *Sim) doAction(a *Action) {
 				s.sleepI(1)
 			}
 		}
+		if s.tearing.Load() {
+			return // the run is over (the call was waiting for a stop call that only returned at teardown)
+		}
 		fresh := o == nil
 		if o != nil {
 			s.mu.Lock()
@@ -333,6 +336,9 @@ func (s *Sim) doAction(a *Action) {
 			case <-s.teardownCh:
 				return
 			}
+		}
+		if s.tearing.Load() {
+			return
 		}
 		r := s.apiBegin(o, "Start", a)
 		err := o.el.Start(context.Background())
@@ -696,6 +702,12 @@ func (s *Sim) teardown() {
 			len(leaked), s.tr.TeardownEnd-s.tr.End, firstLibFrame(leaked[0]))
 		for _, g := range leaked {
 			fmt.Println(g)
+		}
+		fmt.Println("--- API calls of the run ---")
+		for _, l := range strings.Split(s.tr.Timeline(0, 0, false), "\n") {
+			if strings.Contains(l, " API ") {
+				fmt.Println(l)
+			}
 		}
 		os.Stdout.Sync()
 		os.Exit(3)
